@@ -98,6 +98,26 @@ TiesOnlyMove == IsPerm => \A i \in Idx : v[TeamAt(v, Pos(Relisted, i))] = v[p[i]
 \* negative control (must be refuted): without the proviso the sorted order is NOT preserved - which is why C04 states it
 SortEquivariantUnconditional == IsPerm => \A i \in Idx : Pos(Relisted, i) = Pos(v, p[i])
 
+\* ---- C11 at the design level: the ranks predict_rank attaches to a vector of probabilities.  Only the order of the values
+\* matters, so the unbounded integers stand for any totally ordered values.  The library ranks ascending with competition
+\* ranking (_rank_data) and reverses against the rank of a maximal element.
+\* @type: (Int -> Int, Int) => Int;
+RankDataI(u, i) == 1 + Cardinality({q \in Idx : u[q] < u[i]})
+\* @type: (Int -> Int) => Int;
+MaxRankI(u) == 1 + Cardinality({q \in Idx : \E r \in Idx : u[q] < u[r]})        \* rank_data of a maximal element
+\* @type: (Int -> Int, Int) => Int;
+PredRank(u, i) == (MaxRankI(u) - RankDataI(u, i)) + 1
+RankInRange   == \A i \in Idx : PredRank(v, i) >= 1 /\ PredRank(v, i) <= N
+RankOrder     == \A i, j \in Idx : (v[j] < v[i] => PredRank(v, i) < PredRank(v, j)) /\ (v[i] = v[j] => PredRank(v, i) = PredRank(v, j))
+RankTop       == \E i \in Idx : PredRank(v, i) = 1
+RankOrderOnly == SameOrder => \A i \in Idx : PredRank(v, i) = PredRank(w, i)
+Inv4 == RankInRange /\ RankOrder /\ RankTop /\ RankOrderOnly
+\* negative control (must be refuted): ranking the complements 1 - p ascending is NOT the same rule once values are close
+\* enough for the subtraction to collapse them; in exact arithmetic it is the same, so the control uses a coarsening
+\* @type: (Int -> Int, Int) => Int;
+Coarse(u, i) == u[i] \div 2
+ComplementRankCollapses == \A i, j \in Idx : (v[j] < v[i]) => (Coarse(v, j) < Coarse(v, i))
+
 Inv2 == PosInjective /\ UnwindRestores /\ LadderSymmetric /\ LadderAdjacent /\ LadderDegree
 Inv3 == SortEquivariant /\ RankEquivariant /\ TiesOnlyMove
 =============================================================================
